@@ -33,7 +33,7 @@ func (e *Enc) lvalOf(v ssa.Value) *lvalue {
 		return nil
 	}
 	elem := pt.Elem()
-	l := &lvalue{base: e.term(v), root: elem}
+	l := &lvalue{base: e.term(v), root: elem, baseVal: v}
 	if at, ok := elem.Underlying().(*types.Array); ok {
 		l.root = at.Elem()
 		l.elems = true
@@ -42,7 +42,7 @@ func (e *Enc) lvalOf(v ssa.Value) *lvalue {
 }
 
 func (l *lvalue) extend(s sel) *lvalue {
-	n := &lvalue{base: l.base, root: l.root, elems: l.elems, fresh: l.fresh}
+	n := &lvalue{base: l.base, root: l.root, elems: l.elems, fresh: l.fresh, baseVal: l.baseVal}
 	n.path = append(append([]sel{}, l.path...), s)
 	return n
 }
@@ -153,6 +153,7 @@ func (e *Enc) load(l *lvalue, st *State) (string, types.Type) {
 func (e *Enc) store(l *lvalue, st *State, nv string) {
 	if l.elems {
 		k, ks := e.elemsKey(l.root)
+		e.recordWrite(k, l)
 		all := e.get(st, k, ks)
 		arr := fmt.Sprintf("(select %s %s)", all, l.base)
 		if len(l.path) == 0 {
@@ -169,6 +170,7 @@ func (e *Enc) store(l *lvalue, st *State, nv string) {
 			e.st.sortOf(l.root)
 			for i := 0; i < su.NumFields(); i++ {
 				k, ks := e.fieldKey(l.root, su.Field(i))
+				e.recordWrite(k, l)
 				fv := fmt.Sprintf("(%s %s)", e.st.fieldAccIdx(l.root, su, i), nv)
 				e.set(st, k, ks, fmt.Sprintf("(store %s %s %s)", e.get(st, k, ks), l.base, fv))
 			}
@@ -176,6 +178,7 @@ func (e *Enc) store(l *lvalue, st *State, nv string) {
 		}
 		f := su.Field(l.path[0].field)
 		k, ks := e.fieldKey(l.root, f)
+		e.recordWrite(k, l)
 		all := e.get(st, k, ks)
 		old := fmt.Sprintf("(select %s %s)", all, l.base)
 		upd := e.updateValuePath(old, f.Type(), l.path[1:], nv)
@@ -183,6 +186,7 @@ func (e *Enc) store(l *lvalue, st *State, nv string) {
 		return
 	}
 	k, ks := e.cellKey(l.root)
+	e.recordWrite(k, l)
 	all := e.get(st, k, ks)
 	old := fmt.Sprintf("(select %s %s)", all, l.base)
 	upd := e.updateValuePath(old, l.root, l.path, nv)
@@ -256,7 +260,11 @@ func (e *Enc) encodeInstr(b *ssa.BasicBlock, ins ssa.Instruction, st *State) {
 		case *types.Slice:
 			s := e.term(ins.X)
 			e.safe("safe:idx", e.idxInRange(idx, fmt.Sprintf("(sl.len %s)", s)), ins.Pos())
-			e.lv[ins] = &lvalue{base: fmt.Sprintf("(sl.arr %s)", s), root: xt.Elem(), elems: true,
+			var bv ssa.Value
+			if ms, ok := ins.X.(*ssa.MakeSlice); ok {
+				bv = ms
+			}
+			e.lv[ins] = &lvalue{base: fmt.Sprintf("(sl.arr %s)", s), root: xt.Elem(), elems: true, baseVal: bv,
 				path: []sel{{isIdx: true, idx: fmt.Sprintf("(idx.add (sl.off %s) %s)", s, idx)}}}
 			// make the accessor term available to quantified facts about this slice
 			k, ks := e.elemsKey(xt.Elem())
@@ -357,6 +365,7 @@ func (e *Enc) encodeInstr(b *ssa.BasicBlock, ins ssa.Instruction, st *State) {
 		elem := ins.Type().Underlying().(*types.Slice).Elem()
 		k, ks := e.elemsKey(elem)
 		zeroArr := fmt.Sprintf("((as const (Array %s %s)) %s)", e.st.idx(), e.st.sortOf(elem), e.st.zero(elem))
+		e.recordFreshWrite(k)
 		e.set(st, k, ks, fmt.Sprintf("(store %s %s %s)", e.get(st, k, ks), r, zeroArr))
 		e.setVal(ins, fmt.Sprintf("(mkslice %s idx.zero %s %s)", r, n, c))
 	case *ssa.MakeMap:
@@ -364,6 +373,7 @@ func (e *Enc) encodeInstr(b *ssa.BasicBlock, ins ssa.Instruction, st *State) {
 		mt := ins.Type().Underlying().(*types.Map)
 		dk, ds, _, _ := e.mapKeys(mt)
 		empty := fmt.Sprintf("((as const (Array %s Bool)) false)", e.st.sortOf(mt.Key()))
+		e.recordFreshWrite(dk)
 		e.set(st, dk, ds, fmt.Sprintf("(store %s %s %s)", e.get(st, dk, ds), r, empty))
 		e.val[ins] = r
 	case *ssa.Lookup:
@@ -376,6 +386,9 @@ func (e *Enc) encodeInstr(b *ssa.BasicBlock, ins ssa.Instruction, st *State) {
 		kt, vt := e.term(ins.Key), e.term(ins.Value)
 		d := e.get(st, dk, ds)
 		v := e.get(st, vk, vs)
+		ml := &lvalue{base: m, baseVal: ins.Map}
+		e.recordWrite(dk, ml)
+		e.recordWrite(vk, ml)
 		e.set(st, dk, ds, fmt.Sprintf("(store %s %s (store (select %s %s) %s true))", d, m, d, m, kt))
 		e.set(st, vk, vs, fmt.Sprintf("(store %s %s (store (select %s %s) %s %s))", v, m, v, m, kt, vt))
 	case *ssa.Range:
@@ -421,12 +434,13 @@ func (e *Enc) encAlloc(ins *ssa.Alloc, st *State) {
 	r := e.allocRef(st, ins.Name()+"."+ins.Comment)
 	e.val[ins] = r
 	elem := deref(ins.Type())
-	l := &lvalue{base: r, root: elem, fresh: true}
+	l := &lvalue{base: r, root: elem, fresh: true, baseVal: ins}
 	if at, ok := elem.Underlying().(*types.Array); ok {
 		l.root = at.Elem()
 		l.elems = true
 		k, ks := e.elemsKey(at.Elem())
 		zeroArr := fmt.Sprintf("((as const (Array %s %s)) %s)", e.st.idx(), e.st.sortOf(at.Elem()), e.st.zero(at.Elem()))
+		e.recordFreshWrite(k)
 		e.set(st, k, ks, fmt.Sprintf("(store %s %s %s)", e.get(st, k, ks), r, zeroArr))
 	} else {
 		e.store(l, st, e.st.zero(elem))
@@ -622,6 +636,7 @@ func (e *Enc) encConvert(ins *ssa.Convert, st *State) {
 			e.assume(fmt.Sprintf("(forall ((i %s)) (! (=> (and (idx.le idx.zero i) (idx.lt i (gs.len %s))) (= (select %s i) (gs.at %s i))) :pattern ((select %s i))))", e.st.idx(), x, arr, x, arr))
 			e.assume(fmt.Sprintf("(= (gs.of %s %s idx.zero (gs.len %s)) %s)", r, arr, x, x))
 		}
+		e.recordFreshWrite(k)
 		e.set(st, k, ks, fmt.Sprintf("(store %s %s %s)", e.get(st, k, ks), r, arr))
 		e.setVal(ins, fmt.Sprintf("(mkslice %s idx.zero (gs.len %s) (gs.len %s))", r, x, x))
 	case fs == "Slice" && ts == "Str":
@@ -862,7 +877,10 @@ func (e *Enc) encReturn(ins *ssa.Return, st *State) {
 	}
 	ctx := e.ctxReturn(st, ins)
 	for i, c := range e.fc.Ensures {
-		goal := ctx.evalBool(c)
+		goal, ok := e.tryEvalBool(ctx, c)
+		if !ok {
+			continue // mentions a local that is not in scope at this return: the clause does not apply here
+		}
 		nm := c.Name
 		if nm == "" {
 			nm = fmt.Sprint(i)
@@ -876,7 +894,11 @@ func (e *Enc) encReturn(ins *ssa.Return, st *State) {
 		if nm == "" {
 			nm = fmt.Sprint(i)
 		}
-		e.oblige("ret", fmt.Sprintf("%s@ret%d", nm, e.retCount-1), nm, g, rc.evalBool(c), ins.Pos(), c.Src)
+		goal, ok := e.tryEvalBool(rc, c)
+		if !ok {
+			continue
+		}
+		e.oblige("ret", fmt.Sprintf("%s@ret%d", nm, e.retCount-1), nm, g, goal, ins.Pos(), c.Src)
 	}
 	e.frameObligation(st, g, ins.Pos())
 }
@@ -905,4 +927,19 @@ func (e *Enc) encPanic(ins *ssa.Panic, st *State) {
 		k := e.ordinal("safe:nopanic")
 		e.oblige("safe:nopanic", fmt.Sprintf("@%d", k), "", e.guardAt(), "false", ins.Pos(), "nopanic")
 	}
+}
+
+// tryEvalBool evaluates a clause; an unresolved local name makes the clause inapplicable (ok=false).
+func (e *Enc) tryEvalBool(ctx *evalCtx, c *Clause) (goal string, ok bool) {
+	defer func() {
+		if r := recover(); r != nil {
+			if ee, isE := r.(encErr); isE && strings.Contains(string(ee), "unresolved name") {
+				e.note(fmt.Sprintf("clause %q skipped at a return where a local it names is not in scope", c.Name))
+				goal, ok = "", false
+				return
+			}
+			panic(r)
+		}
+	}()
+	return ctx.evalBool(c), true
 }
